@@ -283,6 +283,11 @@ package keeper
 //@   ensures source: found ==> has(requests, requestID) && request.Provider == get(requests, requestID).Provider && bechok(request.Provider)
 //@                       && request.ServiceFee == get(requests, requestID).ServiceFee && request.ExpirationHeight == get(requests, requestID).ExpirationHeight
 //@   ensures absent: !has(requests, requestID) ==> !found
+//@   ensures context: found ==> ufb("hex_ok", get(requests, requestID).RequestContextId) && has(contexts, unhex(get(requests, requestID).RequestContextId))
+//@                       && request.ServiceName == CTX(unhex(get(requests, requestID).RequestContextId)).ServiceName
+//@                       && request.Consumer == CTX(unhex(get(requests, requestID).RequestContextId)).Consumer
+//@   ensures found_when: has(requests, requestID) && bechok(get(requests, requestID).Provider) && ufb("hex_ok", get(requests, requestID).RequestContextId)
+//@                       && has(contexts, unhex(get(requests, requestID).RequestContextId)) && bechok(CTX(unhex(get(requests, requestID).RequestContextId)).Consumer) ==> found
 //@ end
 
 // module callbacks run code of the registering module: assumed not to touch this module's store or its escrow accounts
@@ -406,4 +411,62 @@ package keeper
 //@                      && (len(old(CTX(requestContextID)).ModuleName) > 0 ==> bech(consumer) == old(CTX(requestContextID)).Consumer)
 //@   ensures killed:  err == nil ==> contexts == set(old(contexts), requestContextID, with(old(CTX(requestContextID)), "State", types.COMPLETED))
 //@   ensures rejected: err != nil ==> contexts == old(contexts)
+//@ end
+
+// RefundDeposit: only the owner of an unavailable binding, after the waiting period; pays exactly the recorded deposit
+// from the deposit escrow and records zero.
+//@ func Keeper.RefundDeposit
+//@   property C07
+//@   returns err
+//@   requires has(prm)
+//@   requires has(bindings, serviceName, provider) ==> BIND(serviceName, provider).ServiceName == serviceName && BIND(serviceName, provider).Provider == bech(provider) && bechok(bech(provider))
+//@                && (forall d:Str :: amt(BIND(serviceName, provider).Deposit, d) >= 0)
+//@   requires owner != DEP
+//@   let b0 = BIND(serviceName, provider)
+//@   modifies bal, bindings
+//@   ensures authority: err == nil ==> old(has(bindings, serviceName, provider)) && owner == addr(b0.Owner) && !b0.Available
+//@   ensures paid:      err == nil ==> (forall d:Str :: bal(DEP, d) == old(bal(DEP, d)) - amt(b0.Deposit, d) && bal(owner, d) == old(bal(owner, d)) + amt(b0.Deposit, d))
+//@   ensures recorded:  err == nil ==> (forall d:Str :: amt(BIND(serviceName, provider).Deposit, d) == 0)
+//@   ensures ledger_frame: forall a:Bytes :: forall d:Str :: a != DEP && a != owner ==> bal(a, d) == old(bal(a, d))
+//@   ensures others:    forall s:Str :: forall p:Bytes :: (s != serviceName || p != provider) ==> has(bindings, s, p) == old(has(bindings, s, p)) && BIND(s, p) == old(BIND(s, p))
+//@ end
+
+// EnableServiceBinding: like an update with a deposit: what is added to the record is moved to the escrow.
+//@ func Keeper.EnableServiceBinding
+//@   property C07
+//@   returns err
+//@   requires has(prm)
+//@   requires has(bindings, serviceName, provider) ==> BIND(serviceName, provider).ServiceName == serviceName && BIND(serviceName, provider).Provider == bech(provider) && bechok(bech(provider))
+//@   requires owner != DEP
+//@   requires forall d:Str :: amt(deposit, d) >= 0
+//@   let b0 = BIND(serviceName, provider)
+//@   modifies bal, bindings
+//@   ensures authority: err == nil ==> old(has(bindings, serviceName, provider)) && owner == addr(b0.Owner) && !b0.Available
+//@   ensures recorded:  err == nil ==> BIND(serviceName, provider).Available && (forall d:Str :: amt(BIND(serviceName, provider).Deposit, d) == amt(b0.Deposit, d) + amt(deposit, d))
+//@   ensures escrowed:  err == nil ==> (forall d:Str :: bal(DEP, d) == old(bal(DEP, d)) + amt(deposit, d) && bal(owner, d) == old(bal(owner, d)) - amt(deposit, d))
+//@   ensures ledger_frame: forall a:Bytes :: forall d:Str :: a != DEP && a != owner ==> bal(a, d) == old(bal(a, d))
+//@ end
+
+// Slash: floor(deposit * slash fraction) of the base denomination moves from the deposit escrow to the fee collector and
+// off the binding's record.
+//@ define SLASHFRAC = get(prm).SlashFraction
+//@ define BASE = get(prm).BaseDenom
+//@ func Keeper.Slash
+//@   property C07
+//@   returns err
+//@   requires has(prm) && !isnil(SLASHFRAC) && raw(SLASHFRAC) >= 0 && raw(SLASHFRAC) <= DEC_ONE && ufb("denom_valid", BASE)
+//@   requires k.feeCollectorName != "service_request_account" && k.feeCollectorName != "service_deposit_account"
+//@   requires has(requests, requestID) && bechok(REQUEST(requestID).Provider) && ufb("hex_ok", REQUEST(requestID).RequestContextId)
+//@   requires has(contexts, unhex(REQUEST(requestID).RequestContextId)) && bechok(CTX(unhex(REQUEST(requestID).RequestContextId)).Consumer)
+//@   let svc = CTX(unhex(REQUEST(requestID).RequestContextId)).ServiceName
+//@   let prov = addr(REQUEST(requestID).Provider)
+//@   requires has(bindings, svc, prov) && BIND(svc, prov).ServiceName == svc && BIND(svc, prov).Provider == REQUEST(requestID).Provider
+//@                && (forall d:Str :: amt(BIND(svc, prov).Deposit, d) >= 0)
+//@   let dep0 = amt(BIND(svc, prov).Deposit, BASE)
+//@   let cut = (dep0 * raw(SLASHFRAC)) div DEC_ONE
+//@   modifies bal, bindings
+//@   ensures moved:    err == nil ==> bal(DEP, BASE) == old(bal(DEP, BASE)) - cut && bal(FEECOL, BASE) == old(bal(FEECOL, BASE)) + cut
+//@   ensures recorded: err == nil ==> amt(BIND(svc, prov).Deposit, BASE) == dep0 - cut
+//@                       && (forall d:Str :: d != BASE ==> amt(BIND(svc, prov).Deposit, d) == old(amt(BIND(svc, prov).Deposit, d)))
+//@   ensures ledger_frame: forall a:Bytes :: forall d:Str :: (a != DEP && a != FEECOL) || d != BASE ==> bal(a, d) == old(bal(a, d))
 //@ end
